@@ -37,3 +37,16 @@ claim(
     'Reference grammars are transcribed from CSS Syntax 3 in the rule pack.',
     'regex language queries (exclusivity, inclusion, equivalence) + string-provenance dataflow over the handlers',
 )
+
+claim(
+    'C10',
+    'Decided for every non-empty Unicode string (sufficient under the automata model): escape() is extracted as a '
+    'per-character transducer (position class x code-point interval set -> output template); the regular image '
+    'language is proved included in IDENTIFIER; every template class decodes back to its character against the '
+    "decoder's own tables (hex escapes vs the set of code points css_unescape replaces, backslash escapes vs hex "
+    'digits/newlines, literals vs backslash, NUL -> U+FFFD); escape() performs only total operations; and the '
+    'pattern text is handed from compile() to the tokenizer unmodified. Not decided: that the selected elements are '
+    'those carrying that id/class/attribute (C01); the empty string.',
+    'A construct outside the table vocabulary (e.g. a regex fast path inside escape()) is an ANALYSIS-ERROR, not a pass.',
+    'symbolic transducer extraction + regular-language inclusion',
+)
